@@ -383,8 +383,9 @@ class ProgGen:
                     ["etuple", ty["name"], n, [s[1] for s in subs]], sum((s[2] for s in subs), []))
         if not top and r > 0.85:
             return ("_", ["id", "_"], [])
-        if top and self.scope and self.rng.random() < self.shadow_p:
-            x = self.rng.choice(self.scope)["name"]        # shadows an existing binding
+        shadowable = [v["name"] for v in self.scope if not v["name"].startswith("arr_")]
+        if top and shadowable and self.rng.random() < self.shadow_p:
+            x = self.rng.choice(shadowable)        # shadows an existing binding
             self.note("shadow")
         else:
             x = self.fresh()
@@ -648,6 +649,58 @@ class ProgGen:
         v_ast = ["tuple", [["var", v["name"]] for v in vs]]
         texts, asts = join_stmts(list(ss) + [(v_text, ["expr", v_ast])])
         return "\n    ".join(texts), asts, ret
+
+    def join_program(self):
+        """a program around one for-join loop: `main(a, b[, x])` returns every visible variable; also returns the key type"""
+        UNS = ["u8", "u16", "u32", "u64", "usize"]
+        r = self.rng.random()
+        if r < 0.7:
+            key = INT(self.rng.choice(UNS))
+        elif r < 0.85:
+            key = {"k": "tuple", "ts": [INT(self.rng.choice(UNS)) for _ in range(2)]}
+        else:
+            key = {"k": "array", "elem": U8, "n": self.rng.choice([1, 2, 3])}
+        # (a 1-tuple has no type syntax)
+        ea = {"k": "tuple", "ts": [key] + [self.small_ty(1) for _ in range(self.rng.choice([1, 1, 2]))]}
+        eb = {"k": "tuple", "ts": [key] + [self.small_ty(1) for _ in range(self.rng.choice([1, 1, 2]))]}
+        n, m = self.rng.choice([1, 2, 3, 4, 5, 6]), self.rng.choice([1, 2, 3, 4, 5, 6])
+        params = [("arr_a", {"k": "array", "elem": ea, "n": n}, False), ("arr_b", {"k": "array", "elem": eb, "n": m}, False)]
+        if self.rng.random() < 0.5:
+            params.append((self.fresh("x"), self.small_ty(1), self.rng.random() < 0.5))
+        self.helpers = []
+        self.scope = [{"name": nm, "ty": t, "mut": mu} for nm, t, mu in params]
+        d = self.max_depth
+        items = [self.s_letmut(d - 1, True, []) for _ in range(self.rng.choice([1, 2, 3]))]
+        if self.rng.random() < 0.4:
+            items.append(self.stmt(d - 1, False))
+        # the loop
+        pair = {"k": "tuple", "ts": [ea, eb]}
+        ptext, past, binds = self.irrefutable(pair, 3, False)
+        if ptext == "_":
+            ptext, past, binds = "pr", ["id", "pr"], [("pr", pair)]
+        mark = len(self.scope)
+        for x, t in binds:
+            self.scope.append({"name": x, "ty": t, "mut": False})
+        b_text, b_ast = self.stmt_block(d - 1)
+        del self.scope[mark:]
+        items.append((f"for {ptext} in join_iter(arr_a, arr_b) {b_text}", ["forjoin", past, ["var", "arr_a"], ["var", "arr_b"], b_ast]))
+        if self.rng.random() < 0.4:
+            items.append(self.stmt(d - 1, False))
+        visible = {}
+        for v in self.scope:
+            visible[v["name"]] = v
+        vs = [v for v in visible.values() if v["name"] not in ("arr_a", "arr_b")]
+        self.rng.shuffle(vs)
+        vs = vs[:5] if vs else [visible["arr_a"]]
+        if len(vs) == 1:
+            vs = vs + vs
+        ret = {"k": "tuple", "ts": [v["ty"] for v in vs]}
+        items.append(("(" + ", ".join(v["name"] for v in vs) + ")", ["expr", ["tuple", [["var", v["name"]] for v in vs]]]))
+        texts, asts = join_stmts(items)
+        sig = ", ".join(f"{'mut ' if mu else ''}{nm}: {T.ty_str(t)}" for nm, t, mu in params)
+        src = self.tg.defs_src() + f"pub fn main({sig}) -> {T.ty_str(ret)} {{\n    " + "\n    ".join(texts) + "\n}\n"
+        fns = [{"name": "main", "params": [[nm, t] for nm, t, _ in params], "ret": ret, "body": asts}]
+        return {"src": src, "prog": {"fns": fns, "consts": []}, "params": [[nm, t] for nm, t, _ in params], "ret": ret, "key": key}
 
     def program(self, n_params=None, observe_all=False):
         # helpers first (a helper may call the helpers defined before it)
